@@ -38,7 +38,7 @@ Mechanisms meant to make it hold:
 
 IMPORTANT - be different from earlier attempts. Previous seeders for this property already produced changes that need:
 {earlier}
-Produce a change that is different in kind AND location from all of these (another function / another mechanism / another clause of the property). Favour: two cooperating sites that each look fine alone; a multi-step call sequence or reused object; a rarely used option or code path; numerics-only degradations guarded by a plausible comment; an arithmetic slip in an index / shape computation; a wrong default that only matters through a wrapper; a refactoring ("clean-up", "vectorisation", "performance") that is almost but not quite equivalent.
+Produce a change that is different in kind AND location from all of these (another function / another mechanism / another clause of the property). Favour: two cooperating sites that each look fine alone; a multi-step call sequence or reused object; a rarely used option or code path; numerics-only degradations guarded by a plausible comment; an arithmetic slip in an index / shape computation; a wrong default that only matters through a wrapper; a refactoring ("clean-up", "vectorisation", "performance") that is almost but not quite equivalent.{hint}
 
 WHAT TO PRODUCE
 1. A small change (a few lines, at most ~15) to the library source under {wt}/pb_bss that makes the property FALSE for some inputs/configurations. It must look like a plausible developer mistake or "optimisation". Prefer a change that needs something specific to manifest - a particular option value, a non-default argument, a leading batch axis, an unusual input (zero frames, ties, K>2), a multi-step call sequence, a reused object - NOT one that ordinary default use would expose at once, and not a crash on every call. Do not add new files to the package and do not touch the tests.
@@ -57,7 +57,9 @@ for pid in (ids or sorted(props)):
     subprocess.run(f'git -C /repo worktree remove --force {wt}', shell=True, capture_output=True)
     subprocess.run(f'git -C /repo worktree add -q --detach {wt} HEAD', shell=True, check=True)
     mech = '\n'.join(f"  - {m['name']} ({m['where']})" for m in d['anchors'].get('mechanism', []))
-    text = TEMPLATE.format(wt=wt, pid=pid, tag=tag, title=d['title'], statement=d['statement'], quant=d['quantifier']['text'], why=d['why_tests_cant'],
+    import os
+    hint = os.environ.get('SEED_HINT', '')
+    text = TEMPLATE.format(hint=(' ' + hint) if hint else '', wt=wt, pid=pid, tag=tag, title=d['title'], statement=d['statement'], quant=d['quantifier']['text'], why=d['why_tests_cant'],
                            files=', '.join(d['anchors']['files']), mech=mech, earlier='\n'.join('  * ' + e for e in earlier.get(pid, ['(none yet)'])))
     (outdir / f'{pid}.txt').write_text(text)
     print(pid, wt, len(text))
